@@ -108,6 +108,7 @@ def strip_uses(src):
 STUB_ATTRS = (
     "#[kani::stub(core::ptr::copy_nonoverlapping, crate::jv_top_stubs::copy_nonoverlapping)]\n"
     "#[kani::stub(core::ptr::copy, crate::jv_top_stubs::copy)]\n"
+    "#[kani::stub(alloc::fmt::format, crate::jv_top_stubs::fmt_format)]\n"
 )
 
 
